@@ -4,6 +4,7 @@ package oxsim
 
 import (
 	"fmt"
+	"os"
 	"sort"
 	"strings"
 
@@ -56,9 +57,16 @@ type monitors struct {
 	ackChecks int64
 
 	// C02: when each term's fencing first reached any node, and when each node was told to lead
+	appliedSeen  map[string]appliedMark // node/shard -> last sampled applied commit offset
+	ackedOK      map[string]int64 // follower/shard/offset -> term of the entry it acknowledged to a leader holding the same entry
 	electionNote map[int64]map[int64]string // shard -> term -> how many of ensemble+removed had answered NewTerm when BecomeLeader was sent
 	fenceStamp map[int64]map[int64]int64 // shard -> term -> history stamp of the first NewTerm delivery
 	leadAt     map[string]map[int64][]leadEv
+}
+
+type appliedMark struct {
+	inc int
+	off int64
 }
 
 type leadEv struct {
@@ -71,7 +79,7 @@ func newMonitors(c *chaos) *monitors {
 		leadersSeen: map[int64]map[int64]string{}, nodeTerm: map[string]map[int64]int64{}, deleted: map[string]map[int64]bool{}, blReq: map[string]*proto.BecomeLeaderRequest{}, blResp: map[string]map[string]*proto.EntryId{},
 		fences: map[string]map[int64]*fenceInfo{}, streamTerm: map[string]int64{}, streamShard: map[string]int64{},
 		tagTerm: map[string]int64{}, checkedLeaders: map[string]bool{},
-		electionNote: map[int64]map[int64]string{}, fenceStamp: map[int64]map[int64]int64{}, leadAt: map[string]map[int64][]leadEv{}}
+		appliedSeen: map[string]appliedMark{}, ackedOK: map[string]int64{}, electionNote: map[int64]map[int64]string{}, fenceStamp: map[int64]map[int64]int64{}, leadAt: map[string]map[int64][]leadEv{}}
 }
 
 func (m *monitors) want(p string) bool {
@@ -315,8 +323,26 @@ func (m *monitors) checkTruncate(t *TapMsg, req *proto.TruncateRequest) {
 	if tl < 0 {
 		why = fmt.Sprintf("the leader's log ends at offset %d, before the follower's committed entry %d (term %d)", lw.LastOffset(), at, tf)
 	}
-	if tf >= 0 && tl > tf {
+	// was the entry the follower holds at that offset ever acknowledged by a node to a sender that
+	// held it identically (i.e. really replicated), as opposed to existing on this node only?
+	legit := false
+	for _, n := range m.c.cl.NodeNames {
+		if term, ok := m.ackedOK[fmt.Sprintf("%s/%d/%d", n, req.Shard, at)]; ok && term == tf {
+			legit = true
+		}
+	}
+	if tf >= 0 && tl > tf && legit {
 		why = fmt.Sprintf("the follower's entries from offset %d on are of term %d and were committed later, in a higher term, by a leader that added no entry of its own; the new leader holds never-committed entries of the intermediate term %d at those offsets and won the election on its higher head term", at, tf, tl)
+	}
+	if os.Getenv("OXSIM_DEBUG_ACKS") != "" {
+		var ks []string
+		for k, v := range m.ackedOK {
+			if strings.HasPrefix(k, t.Dst+"/") || strings.HasSuffix(k, fmt.Sprintf("/%d", at)) || len(ks) < 6 {
+				ks = append(ks, fmt.Sprintf("%s=t%d", k, v))
+			}
+		}
+		sort.Strings(ks)
+		why += fmt.Sprintf(" [acks recorded: %v of %d total, ackChecks=%d]", ks, len(m.ackedOK), m.ackChecks)
 	}
 	m.fail("C03", "committed-entries-truncated", "leader %s (term %d) tells follower %s to truncate shard %d to offset %d although the follower has applied entries up to offset %d as committed: %s; follower log %s",
 		t.Src, req.Term, t.Dst, req.Shard, cut, applied, why, termsOf(fv.Wal))
@@ -410,6 +436,16 @@ func (m *monitors) checkAck(t *TapMsg, ack *proto.Ack) {
 	}
 	fv, ok1 := fn.Server.SimShardView(shard)
 	lv, ok2 := ln.Server.SimShardView(shard)
+	if ok1 && ok2 && fv.Wal != nil && lv.Wal != nil {
+		// evidence for later: this follower acknowledged, to the node that sent it, an entry which
+		// that node holds identically (whatever has happened to that node's term since)
+		a, errA := readLog(fv.Wal, ack.Offset-1)
+		b, errB := readLog(lv.Wal, ack.Offset-1)
+		if errA == nil && errB == nil && len(a) > 0 && len(b) > 0 && a[0].Offset == ack.Offset && b[0].Offset == ack.Offset &&
+			a[0].Term == b[0].Term && string(a[0].Value) == string(b[0].Value) {
+			m.ackedOK[fmt.Sprintf("%s/%d/%d", follower, shard, ack.Offset)] = a[0].Term
+		}
+	}
 	if !ok1 || !ok2 || fv.Wal == nil || lv.Wal == nil || !lv.IsLeader || lv.Term != sterm {
 		return
 	}
@@ -660,6 +696,41 @@ func (m *monitors) afterEvent() {
 	w := m.c.w
 	for s := int64(0); s < int64(m.c.o.Shards); s++ {
 		views := w.ShardViews(s)
+		// C03: what a follower applies as committed is what the leader of its term holds at that offset
+		var leadV *shardView
+		leadN := ""
+		for name, v := range views {
+			if v.IsLeader && v.Status == int32(proto.ServingStatus_LEADER) && (leadV == nil || v.Term > leadV.Term) {
+				leadV, leadN = v, name
+			}
+		}
+		for name, v := range views {
+			if v.IsLeader || v.Wal == nil {
+				continue
+			}
+			key := fmt.Sprintf("%s/%d", name, s)
+			inc := 0
+			if sn := w.Node(name); sn != nil {
+				inc = sn.EP.Inc
+			}
+			prevA, seen := m.appliedSeen[key]
+			if !seen || prevA.inc != inc || v.CommitOffset < prevA.off {
+				m.appliedSeen[key] = appliedMark{inc, v.CommitOffset}
+				continue
+			}
+			if v.CommitOffset == prevA.off {
+				continue
+			}
+			m.appliedSeen[key] = appliedMark{inc, v.CommitOffset}
+			if leadV == nil || leadV.Wal == nil || leadV.Term != v.Term || v.Status != int32(proto.ServingStatus_FOLLOWER) {
+				continue
+			}
+			if msg := compareLogs(leadV.Wal, v.Wal, prevA.off, v.CommitOffset); msg != "" {
+				m.fail("C03", "follower-applied-divergent-entry", "follower %s applied shard %d offsets %d..%d as committed in term %d, but against leader %s %s; follower log %s, leader log %s",
+					name, s, prevA.off+1, v.CommitOffset, v.Term, leadN, msg, termsOf(v.Wal), termsOf(leadV.Wal))
+			}
+			m.c.r.Count("follower_apply_rounds_checked", 1)
+		}
 		for name, v := range views {
 			// (c) node terms never decrease, also across restarts
 			if m.nodeTerm[name] == nil {
